@@ -1002,20 +1002,37 @@ def check_C17(tier, seed):
             return digest(q["cond"])
         return None
     def extra(qc, rng, quick):
-        # an(entity(concatenate(e))): exactly one row, the list of everything in domain order and inner order
-        for _ in range(150 if quick else 3000):
+        # concatenate(e) selected: exactly one row, the list of everything in domain order and inner order - selected
+        # through entity or set_of (alone or next to a free variable), e over a variable or over a sub-query (which
+        # restricts the parents), evaluated repeatedly under both cache configurations
+        x, y = {"k": "var", "i": 1}, {"k": "var", "i": 2}
+
+        def cmp(op, a, v):
+            return {"k": "cmp", "op": op, "l": {"k": "attr", "e": x, "a": a}, "r": {"k": "lit", "v": datasets.iv(v)}}
+        subconds = [cmp("ge", "n", 1), {"k": "or", "l": cmp("ge", "n", 2), "r": cmp("eq", "n", 0), "form": "fn"},
+                    {"k": "and", "l": cmp("ge", "n", 1), "r": cmp("le", "m", 1), "form": "fn"},
+                    {"k": "not", "c": cmp("eq", "m", 0), "form": "fn"}]
+        for _ in range(300 if quick else 5000):
             W = datasets.random_world(rng, rng.randint(1, 6))
-            dom = datasets.domains_for(rng, W, 1, maxdom=5)[0]
+            doms = datasets.domains_for(rng, W, 2, maxdom=5)
             attr = rng.choice(["items", "t", "n", "refs", "ref", "s", "pairs"])
-            q = {"vars": [{"cls": "A", "dom": dom}], "flats": [], "bound": [1], "desc": "entity", "quant": "an",
-                 "sel": [{"k": "concat", "e": {"k": "attr", "e": {"k": "var", "i": 1}, "a": attr}}],
-                 "cond": {"k": "true"}, "varkeys": [1]}
-            qc.add(W, [q], [drain_ev()], tag="concat-selected")
+            parent = x if rng.random() < 0.5 else {"k": "sub", "i": 1, "c": rng.choice(subconds), "quant": "an"}
+            c = {"k": "concat", "e": {"k": "attr", "e": parent, "a": attr}}
+            shape = rng.choice(["entity", "set_of", "set_of+y"])
+            q = {"vars": [{"cls": "A", "dom": doms[0]}] + ([{"cls": "A", "dom": doms[1]}] if shape == "set_of+y" else []),
+                 "flats": [], "bound": [1], "desc": "entity" if shape == "entity" else "set_of", "quant": "an",
+                 "sel": [c] + ([y] if shape == "set_of+y" else []), "cond": {"k": "true"},
+                 "varkeys": [1, 2] if shape == "set_of+y" else [1]}
+            evs = [drain_ev(), drain_ev(1, eqto=1), drain_ev(1, eqto=1)]
+            if rng.random() < 0.4:
+                evs = [{"op": "cfg", "caching": False}, drain_ev(), drain_ev(1, eqto=2), drain_ev(1, eqto=2)]
+            qc.add(W, [q], evs, tag="concat-selected")
     rc = _grammar_check(
         "C17", tier, seed, ["G7c"],
         "membership of y.n / y.m / y / y.ref in concatenate(x.items | x.t | x.n | x.refs | x.ref) and its negation, combined "
         "with other conditions on y, over parents with empty, overlapping and repeated inner collections; plus "
-        "an(entity(concatenate(e))) whose single row must be the list of all elements in domain and inner order; "
+        "concatenate(e) selected (entity, set_of, next to a free variable; e over a variable or a sub-query), whose single "
+        "value must be the list of all elements in domain and inner order, on every re-evaluation; "
         "non-trivial = some but not all y selected", 2, events=events, nontrivial=nontrivial,
         needs=lambda p: count_nodes(p["cond"], "concat") > 0, extra=extra)
     return rc
@@ -1065,19 +1082,23 @@ def check_C14(tier, seed):
     run = Run("C14", tier, seed)
     quick = tier == "quick"
     run.rule = ("histories: every sequence (to the depth bound) of concrete construction (Base / Mid(inherits the decorator) / "
-                "Leaf(undecorated, hand-written __init__); positional, keyword, default arguments), symbolic construction, rule "
+                "Leaf(undecorated, hand-written __init__), and Own(hand-written __new__) / OwnSub(undecorated); positional, "
+                "keyword, default arguments), symbolic construction, rule "
                 "inference of 0-2 instances, registry clearing and no-domain queries at every level of the hierarchy, ending "
                 "in a query; exported by TLC and replayed, plus random walks; TLC computes the expected registry contents; "
                 "non-trivial = final query returns a proper, non-empty subset of everything constructed")
     run.assumptions = ["a no-domain variable is evaluated once (it may be declared at any earlier point of the history)",
                        "objects are identified by the order of their concrete construction (harness log)"]
-    run.mc("Registry", "histories", constants=dict(MaxLen=4 if quick else 5),
-           invariants=("IndicesUnique", "SubtypeMonotone"), properties=("SymbolicIsInert",), constraint="Bound", view="View")
-    behs = run.export("Registry", "export", "BEH", constants=dict(MaxLen=3 if quick else 4), invariants=("Export",),
-                      constraint="Bound", count=False)
-    behs += run.export("Registry", "walks", "BEH", constants=dict(MaxLen=9 if quick else 14), invariants=("Export",),
-                       constraint="Bound", simulate=600 if quick else 20000, depth=10 if quick else 15, count=False)
-    cases = [{"id": k + 1, "family": "registry", "evs": b} for k, b in enumerate(behs)]
+    cases = []
+    for hier in ("dataclass", "ownnew"):
+        run.mc("Registry", "histories-" + hier, constants=dict(MaxLen=4 if quick else 5, Hier=hier),
+               invariants=("IndicesUnique", "SubtypeMonotone"), properties=("SymbolicIsInert",), constraint="Bound", view="View")
+        behs = run.export("Registry", "export-" + hier, "BEH", constants=dict(MaxLen=3 if quick else 4, Hier=hier),
+                          invariants=("Export",), constraint="Bound", count=False)
+        behs += run.export("Registry", "walks-" + hier, "BEH", constants=dict(MaxLen=9 if quick else 14, Hier=hier),
+                           invariants=("Export",), constraint="Bound", simulate=600 if quick else 20000,
+                           depth=10 if quick else 15, count=False)
+        cases += [{"id": len(cases) + k + 1, "family": "registry", "hier": hier, "evs": b} for k, b in enumerate(behs)]
     traces = run.replay(cases)
     rej = run.validate("TraceRegistry", traces)
     by_id = {c["id"]: c for c in cases}
